@@ -12,7 +12,7 @@ def one(arg):
     from vf.checks import c08
     out = c08.replay_history({'history': [kind + '/n' if kind != 'hip' else 'hip'], 'start': start})
     rec = out['records'][0]
-    return {'outcome': rec['outcome'], 'text': rec.get('text'), 'exc': rec.get('exc')}
+    return {'outcome': rec['outcome'], 'text': rec.get('text'), 'json': rec.get('json_file'), 'exc': rec.get('exc')}
 
 
 if __name__ == '__main__':
@@ -25,6 +25,6 @@ if __name__ == '__main__':
         if tag[0] != 'ok':
             print(tag, file=sys.stderr)
             sys.exit(3)
-        res[k] = {'outcome': tag[1]['outcome'], 'text': tag[1]['text']}
+        res[k] = {'outcome': tag[1]['outcome'], 'text': tag[1]['text'], 'json': tag[1].get('json')}
     runner.cleanup_scratch()
     print(json.dumps(res))
